@@ -119,6 +119,8 @@ func c20Load() []c20Doc {
 	addText("shape/validity-from-duration", []byte(`{"version":1,"subject":"CN=Shape, C=DE","keyAlgorithm":"P-224","validity":{"from":"2020-01-01","duration":"5y"}}`))
 	addText("shape/validity-from-until", []byte(`{"version":1,"subject":"CN=Shape, C=DE","keyAlgorithm":"P-224","validity":{"from":"2020-01-01","until":"2040-01-01"}}`))
 	addText("shape/validity-until-only", []byte(`{"version":1,"subject":"CN=Shape, C=DE","keyAlgorithm":"P-224","validity":{"until":"2040-01-01"}}`))
+	addText("shape/validity-from-only", []byte(`{"version":1,"subject":"CN=Shape, C=DE","keyAlgorithm":"P-224","validity":{"from":"2020-01-01"}}`))
+	addText("shape/profile-validity-from-only", []byte(`{"version":1,"name":"shape-profile","validity":{"from":"2020-01-01"}}`))
 	addText("shape/profile-validity-from-duration", []byte(`{"version":1,"name":"shape-profile","validity":{"from":"2020-01-01","duration":"5y"}}`))
 	addText("shape/profile-validity-from-until", []byte(`{"version":1,"name":"shape-profile","validity":{"from":"2020-01-01","until":"2040-01-01"}}`))
 	c20Docs = out
@@ -245,7 +247,7 @@ var c20Hostile = []string{
 	`"2024-13-45"`, `"2023-02-30"`, `"0000-00-00"`, `"9999-12-31"`, `"99999999999999999999y"`, `"99999999y99999999m99999999d"`,
 	`"!binary:"`, `"!binary:A"`, `"!binary:===="`, `"!binary:AAAA"`, `"!bogus"`, `"!null"`, `"!empty"`, `"hash"`,
 	`"` + strings.Repeat("A", 100000) + `"`, `"\u0000"`, `"😂"`, `"CN=x,CN="`, `"256.1.1.300"`, `"1.2.3"`,
-	`null`, `[]`, `{}`, `true`, `{"a":{"b":[1]}}`, `[[]]`, `["x"]`, `"9223372036854772807y"`,
+	`null`, `[]`, `{}`, `true`, `{"a":{"b":[1]}}`, `[[]]`, `["x"]`, `"9223372036854772807y"`, `"10.0.0.256"`, `"10.0.0.-1"`,
 }
 
 var c20OIDSlot = regexp.MustCompile(`(^|\.)(oid|professionOids\.\[\]|\.signatureAlgorithm|\.tbs\.signature|algorithm)$|manipulations\.(\.signatureAlgorithm|\.tbs\.signature|\.tbs\.subjectPublicKey\.algorithm)$|extendedKeyUsage\.content\.\[\]$`)
@@ -550,6 +552,21 @@ func c20Exec(x *engine.Ctx, cc any) {
 					}
 				}
 			}
+			if c20IPSlot(d.Tree, p) && c20BadIP[h] {
+				// an address octet outside 0..255 passes the schema: it must surface as an error (or a
+				// skipped file), not as a certificate carrying the octet modulo 256
+				world := c20World(d, text)
+				res, w := c20RunWorld(x, world, []int{9}, what)
+				target := "mut.pem"
+				if d.Profile {
+					target = "ent.pem"
+				}
+				if res.Panic == "" && res.OK() {
+					if f, ok := w.Files[target]; ok && refx509.SplitPem(f.Data).NumCerts > 0 {
+						x.ViolationCase("C20/out-of-range-accepted slot=san-ip-octet", fmt.Sprintf("%s: the run succeeded and issued a certificate; the octet was reduced modulo 256", what), &c20Case{Kind: "one", Files: world, Strats: []int{9}, What: what + " [expect error]"})
+					}
+				}
+			}
 			c20RunWorld(x, c20World(d, text), []int{9, 9, 25}, what)
 			c20RunEdited(x, d, text, []int{9, 14}, what)
 			n++
@@ -617,6 +634,37 @@ func c20Exec(x *engine.Ctx, cc any) {
 	}
 }
 
+// c20IPSlot: the slot is the name of a subjectAlternativeName entry of type ip.
+func c20IPSlot(tree any, p c20Path) bool {
+	if len(p) < 2 {
+		return false
+	}
+	if k, ok := p[len(p)-1].(string); !ok || k != "name" {
+		return false
+	}
+	n := tree
+	for _, step := range p[:len(p)-1] {
+		switch st := step.(type) {
+		case string:
+			m, ok := n.(map[string]any)
+			if !ok {
+				return false
+			}
+			n = m[st]
+		case int:
+			l, ok := n.([]any)
+			if !ok || st >= len(l) {
+				return false
+			}
+			n = l[st]
+		}
+	}
+	m, ok := n.(map[string]any)
+	return ok && m["type"] == "ip" && strings.Contains(c20PathStr(p), "subjectAlternativeName")
+}
+
+var c20BadIP = map[string]bool{`"256.1.1.300"`: true, `"10.0.0.256"`: true, `"10.0.0.-1"`: true}
+
 func c20SlotClassFromWhat(what string) string {
 	i := strings.Index(what, "slot ")
 	j := strings.Index(what, " := ")
@@ -628,6 +676,8 @@ func c20SlotClassFromWhat(what string) string {
 
 func c20SlotClass(ps string) string {
 	switch {
+	case strings.Contains(ps, "subjectAlternativeName"):
+		return "san-ip-octet"
 	case strings.Contains(ps, "manipulations"):
 		return "manipulation-oid"
 	case strings.Contains(ps, "custom"):
@@ -899,7 +949,7 @@ func init() {
 	register(&engine.Check{
 		ID:          "C20",
 		Level:       "exploration",
-		Rule:        "deviation-bounded enumeration from a valid corpus (the two *-example.yaml documents, examples/, the certificate/extension/profile schema test corpora read from /repo, and artifacts gopki produces): (1) every scalar and container slot of every corpus document replaced by each of 41 hostile values (empty, blank, 0, -1, 2^31, 2^63, 10^30, 1e400, 1.5, OIDs with over-long arcs / wrong first arcs / single arc, impossible dates, huge durations, malformed base64, wrong types, 100 kB string, NUL, emoji, null, [], {}, nested containers) and by removal of the slot, the document placed as root with a child (or as profile of two entities) and run default; default; -a on a fresh directory, and edited into the directory already generated from the unmodified document and run default; -e -o -c (existing certificates, keys and hash lines meet the hostile text); five added documents give the validity shapes from+duration, from+until, until-only (certificate and profile) that the repository's documents lack; thorough adds two deviations for all pairs among OID-, date- and raw-valued slots of the example documents; (2) byte level: every prefix and every offset x 8 bytes of the configuration texts through ParseConfig (quick: documents <=3 kB), every cut and offset x 7 bytes of generated PEM files, every offset x 6 byte values of the DER inside each PEM block re-armoured, through ReadPem and whole runs; 12 placements of the #HASH line x 32 strategies; (3) root and sub artifact each in 10 states (no file, empty, hash only, cert only, key only, CSR only, cert+key, cert+CSR, key+CSR, garbage) x 32 strategies followed by a default run, and the three-tier extension. Oracle: no panic / fatal error; an over-long OID arc in an OID-valued slot must make ParseConfig return an error. non-trivial = distinct mutated inputs executed",
+		Rule:        "deviation-bounded enumeration from a valid corpus (the two *-example.yaml documents, examples/, the certificate/extension/profile schema test corpora read from /repo, and artifacts gopki produces): (1) every scalar and container slot of every corpus document replaced by each of 41 hostile values (empty, blank, 0, -1, 2^31, 2^63, 10^30, 1e400, 1.5, OIDs with over-long arcs / wrong first arcs / single arc, impossible dates, huge durations, malformed base64, wrong types, 100 kB string, NUL, emoji, null, [], {}, nested containers) and by removal of the slot, the document placed as root with a child (or as profile of two entities) and run default; default; -a on a fresh directory, and edited into the directory already generated from the unmodified document and run default; -e -o -c (existing certificates, keys and hash lines meet the hostile text); seven added documents give the validity shapes from+duration, from+until, from-only, until-only (certificate and profile) that the repository's documents lack; thorough adds two deviations for all pairs among OID-, date- and raw-valued slots of the example documents; (2) byte level: every prefix and every offset x 8 bytes of the configuration texts through ParseConfig (quick: documents <=3 kB), every cut and offset x 7 bytes of generated PEM files, every offset x 6 byte values of the DER inside each PEM block re-armoured, through ReadPem and whole runs; 12 placements of the #HASH line x 32 strategies; (3) root and sub artifact each in 10 states (no file, empty, hash only, cert only, key only, CSR only, cert+key, cert+CSR, key+CSR, garbage) x 32 strategies followed by a default run, and the three-tier extension. Oracle: no panic / fatal error; an over-long OID arc in an OID-valued slot must make ParseConfig return an error. non-trivial = distinct mutated inputs executed",
 		Bound:       map[string]string{"deviations from the corpus": "1 (thorough: 2 for OID/date/raw slots)"},
 		Assumptions: []string{"'all byte strings' is unbounded; coverage-guided mutation is sampling and outside this technique: decided is exactly the deviation-bounded space", "fatal (unrecoverable) errors are attributed to the announced case"},
 		Budget:      budgets(quickBudget, thoroughBudget),
